@@ -28,9 +28,9 @@ theorem checkAffected_backlog (sp : Spec) (w : World) (t : Tid) : (checkAffected
 
 /-- `Task.complete` in a completed workflow: no task is created, the workflow state stays; the backlog
     is polled by the dispatcher and dropped -/
-theorem completeTaskX_completed (sp : Spec) (w : World) (r : TaskRow) (s : St) (hc : isCompleted w.wf = true) :
-    ids (completeTaskX sp w r s) = ids w ∧ (completeTaskX sp w r s).wf = w.wf ∧
-      ((completeTaskX sp w r s).backlog = w.backlog ∨ (completeTaskX sp w r s).backlog = []) := by
+theorem completeTaskX_completed (srt : Sorter) (sp : Spec) (w : World) (r : TaskRow) (s : St) (hc : isCompleted w.wf = true) :
+    ids (completeTaskX srt sp w r s) = ids w ∧ (completeTaskX srt sp w r s).wf = w.wf ∧
+      ((completeTaskX srt sp w r s).backlog = w.backlog ∨ (completeTaskX srt sp w r s).backlog = []) := by
   obtain ⟨_, hp, _⟩ := completed_not_paused_or_idle w.wf hc
   unfold completeTaskX
   split
@@ -38,8 +38,8 @@ theorem completeTaskX_completed (sp : Spec) (w : World) (r : TaskRow) (s : St) (
     unfold ids; rw [(checkAffected_tasks sp w _).1]
   · simp only [hc, if_true, hp, Bool.false_eq_true, if_false, List.filter_nil, List.isEmpty_nil, List.map_nil]
     have hd : ∀ (ts : List TaskRow) (p : List Item),
-        dispatchX sp { w with tasks := ts, pending := p } [] = { w with tasks := ts, pending := p, backlog := [] } :=
-      fun ts p => dispatchX_completed sp { w with tasks := ts, pending := p } [] hc
+        dispatchX srt sp { w with tasks := ts, pending := p } [] = { w with tasks := ts, pending := p, backlog := [] } :=
+      fun ts p => dispatchX_completed srt sp { w with tasks := ts, pending := p } [] hc
     refine ⟨?_, ?_, Or.inr ?_⟩
     · unfold ids
       rw [(checkAffected_tasks sp _ _).1, hd]
@@ -51,25 +51,25 @@ theorem completeTaskX_completed (sp : Spec) (w : World) (r : TaskRow) (s : St) (
     late result, start request, refresh job, completion check, duplicate, pause / resume / stop command -
     creates a task execution or changes the workflow state, also not through the backlog: the commands saved
     there are never dispatched any more (the backlog is left alone or polled and dropped). -/
-theorem no_dispatch_into_completed (sp : Spec) (w : World) (ev : Event) (hc : isCompleted w.wf = true) :
-    ids (stepX sp w ev) = ids w ∧ (stepX sp w ev).wf = w.wf ∧
-      ((stepX sp w ev).backlog = w.backlog ∨ (stepX sp w ev).backlog = []) := by
+theorem no_dispatch_into_completed_g (srt : Sorter) (sp : Spec) (w : World) (ev : Event) (hc : isCompleted w.wf = true) :
+    ids (stepXg srt sp w ev) = ids w ∧ (stepXg srt sp w ev).wf = w.wf ∧
+      ((stepXg srt sp w ev).backlog = w.backlog ∨ (stepXg srt sp w ev).backlog = []) := by
   obtain ⟨hpi, hp, hidle⟩ := completed_not_paused_or_idle w.wf hc
   cases ev with
   | start =>
     have : (w.wf != .IDLE) = true := by simpa using hidle
-    simp [stepX, this]
+    simp [stepXg, this]
   | pause =>
-    refine ⟨by simp [stepX, ids], ?_, Or.inl rfl⟩
-    cases hw : w.wf <;> simp_all [stepX, isCompleted, Gen.States.completedStates] <;> decide
-  | resume => simp [stepX, hpi]
+    refine ⟨by simp [stepXg, ids], ?_, Or.inl rfl⟩
+    cases hw : w.wf <;> simp_all [stepXg, isCompleted, Gen.States.completedStates] <;> decide
+  | resume => simp [stepXg, hpi]
   | stop t =>
-    refine ⟨by simp [stepX, ids], ?_, Or.inl rfl⟩
-    simp only [stepX]
+    refine ⟨by simp [stepXg, ids], ?_, Or.inl rfl⟩
+    simp only [stepXg]
     cases hw : w.wf <;> simp_all [isCompleted, Gen.States.completedStates] <;> cases t <;> decide
-  | execute t ok => simp only [stepX]; split <;> exact ⟨rfl, rfl, Or.inl rfl⟩
+  | execute t ok => simp only [stepXg]; split <;> exact ⟨rfl, rfl, Or.inl rfl⟩
   | deliver it =>
-    simp only [stepX]
+    simp only [stepXg]
     split
     · exact ⟨rfl, rfl, Or.inl rfl⟩
     · cases it with
@@ -104,7 +104,7 @@ theorem no_dispatch_into_completed (sp : Spec) (w : World) (ev : Event) (hc : is
         split
         · exact ⟨rfl, rfl, Or.inl rfl⟩
         · rename_i r _
-          exact completeTaskX_completed sp { w with pending := removeFirst w.pending (.rpcResult t ok) } r _ hc
+          exact completeTaskX_completed srt sp { w with pending := removeFirst w.pending (.rpcResult t ok) } r _ hc
       | jobRefresh t =>
         simp only
         split
@@ -114,6 +114,11 @@ theorem no_dispatch_into_completed (sp : Spec) (w : World) (ev : Event) (hc : is
           · exact ⟨rfl, rfl, Or.inl rfl⟩
           · have : isCompleted w.wf = true := hc
             simp [this, ids]
+
+theorem no_dispatch_into_completed (sp : Spec) (w : World) (ev : Event) (hc : isCompleted w.wf = true) :
+    ids (stepX sp w ev) = ids w ∧ (stepX sp w ev).wf = w.wf ∧
+      ((stepX sp w ev).backlog = w.backlog ∨ (stepX sp w ev).backlog = []) :=
+  no_dispatch_into_completed_g pySorter sp w ev hc
 
 /-- … hence along EVERY history: from the moment the workflow is completed the set of task executions and
     the workflow state never change again, whatever is in the backlog -/
@@ -138,17 +143,18 @@ theorem no_dispatch_into_completed_reachable (sp : Spec) (evs evs' : List Event)
     nothing of it is created. -/
 theorem pause_command_saves_rest (sp : Spec) (w : World) (pre : List Cmd) (p : Cmd) (rest : List Cmd)
     (hw : w.wf = .RUNNING) (hpre : ∀ c ∈ pre, cmdKind c.target = .task) (hp : cmdKind p.target = .pause) :
-    processX sp false w (pre ++ p :: rest) =
-      { (pySort (cmdLT fun c => !false && c.existing.isNone && (isJoin sp c.target).isSome) pre).foldl
+    processX pySorter sp false w (pre ++ p :: rest) =
+      { (pySort (cmdLT fun c => c.existing.isNone && (isJoin sp c.target).isSome) pre).foldl
           (dispatchOneX sp false) w with
           wf := .PAUSED,
           backlog := w.backlog ++ rest.filter (fun c => cmdKind c.target != .noop) } := by
   unfold processX
   rw [rearrange_tasks_pause _ pre p rest hpre hp, List.foldl_append, List.foldl_cons]
-  have hpre' : ∀ c ∈ pySort (cmdLT fun c => !false && c.existing.isNone && (isJoin sp c.target).isSome) pre,
+  simp only [pySorter_apply]
+  have hpre' : ∀ c ∈ pySort (cmdLT fun c => c.existing.isNone && (isJoin sp c.target).isSome) pre,
       cmdKind c.target = .task := fun c hc => hpre c ((pySort_perm _ pre).2 c |>.mp hc)
   obtain ⟨h1, h2⟩ := foldl_tasks_running sp false _ w hw hpre'
-  generalize (pySort (cmdLT fun c => !false && c.existing.isNone && (isJoin sp c.target).isSome) pre).foldl
+  generalize (pySort (cmdLT fun c => c.existing.isNone && (isJoin sp c.target).isSome) pre).foldl
     (dispatchOneX sp false) w = w1 at h1 h2
   have hp1 : dispatchOneX sp false w1 p = { w1 with wf := .PAUSED } := by
     have hc : isCompleted w1.wf = false := by rw [h1]; decide
@@ -159,12 +165,12 @@ theorem pause_command_saves_rest (sp : Spec) (w : World) (pre : List Cmd) (p : C
 
 /-- the saved commands stay in the backlog as long as the workflow is PAUSED: no event but `resume`
     touches it (never lost while PAUSED) -/
-theorem backlog_untouched_while_paused (sp : Spec) (w : World) (ev : Event) (hw : w.wf = .PAUSED)
-    (hev : ∀ x, ev = x → x ≠ .resume) : (stepX sp w ev).backlog = w.backlog := by
+theorem backlog_untouched_while_paused_g (srt : Sorter) (sp : Spec) (w : World) (ev : Event) (hw : w.wf = .PAUSED)
+    (hev : ∀ x, ev = x → x ≠ .resume) : (stepXg srt sp w ev).backlog = w.backlog := by
   have hp : isPaused w.wf = true := by rw [hw]; decide
   have hnc : isCompleted w.wf = false := by rw [hw]; decide
   have hct : ∀ (p : List Item) (r : TaskRow) (s : St),
-      (completeTaskX sp { w with pending := p } r s).backlog = w.backlog := by
+      (completeTaskX srt sp { w with pending := p } r s).backlog = w.backlog := by
     intro p r s
     unfold completeTaskX
     split
@@ -173,12 +179,12 @@ theorem backlog_untouched_while_paused (sp : Spec) (w : World) (ev : Event) (hw 
       simp only [hp, if_true]
   cases ev with
   | resume => exact absurd rfl (hev _ rfl)
-  | start => simp only [stepX]; split <;> first | rfl | (rename_i h; rw [hw] at h; exact absurd h (by decide))
+  | start => simp only [stepXg]; split <;> first | rfl | (rename_i h; rw [hw] at h; exact absurd h (by decide))
   | pause => rfl
   | stop t => rfl
-  | execute t ok => simp only [stepX]; split <;> rfl
+  | execute t ok => simp only [stepXg]; split <;> rfl
   | deliver it =>
-    simp only [stepX]
+    simp only [stepXg]
     split
     · rfl
     · cases it with
@@ -231,60 +237,99 @@ theorem backlog_untouched_while_paused (sp : Spec) (w : World) (ev : Event) (hw 
                         simp only [hp, if_true]
                     · rfl
 
-/-- `backlog_restored_once`: when the backlog is polled in a RUNNING workflow (after `resume`, or at the
-    next dispatch) every saved task command is dispatched EXACTLY ONCE - one new execution and one start
-    request per saved command (in the order `_rearrange_commands` gives them) - and the backlog is empty
-    afterwards: nothing is lost, nothing can be dispatched a second time.  (In a completed workflow the
-    polled backlog is dropped: `dispatchX_completed` / `no_dispatch_into_completed`.) -/
-theorem backlog_restored_once (sp : Spec) (bl : List Cmd) (w : World) (hw : w.wf = .RUNNING) (hb : w.backlog = [])
-    (hbl : ∀ c ∈ bl, cmdKind c.target = .task) :
-    (processX sp true w bl).backlog = [] ∧ (processX sp true w bl).wf = .RUNNING ∧
-    (processX sp true w bl).tasks.map (·.name) =
-      w.tasks.map (·.name) ++
-        (pySort (cmdLT fun c => !true && c.existing.isNone && (isJoin sp c.target).isSome) bl).map (·.target) ∧
-    (processX sp true w bl).tasks.length = w.tasks.length + bl.length ∧
-    (processX sp true w bl).pending.length = w.pending.length + bl.length := by
-  unfold processX
-  rw [rearrange_tasks _ bl hbl]
-  obtain ⟨hlen, hmem⟩ := pySort_perm (cmdLT fun c => !true && c.existing.isNone && (isJoin sp c.target).isSome) bl
-  have hbl' : ∀ c ∈ pySort (cmdLT fun c => !true && c.existing.isNone && (isJoin sp c.target).isSome) bl,
-      cmdKind c.target = .task := fun c hc => hbl c ((hmem c).mp hc)
-  rw [← hlen]
-  generalize pySort (cmdLT fun c => !true && c.existing.isNone && (isJoin sp c.target).isSome) bl = cs at hbl'
-  clear hlen hmem hbl
-  induction cs generalizing w with
-  | nil => exact ⟨hb, hw, by simp, by simp, by simp⟩
-  | cons c cs ih =>
-    have hc := hbl' c List.mem_cons_self
-    have h1 : isCompleted w.wf = false := by rw [hw]; decide
-    have h2 : (w.wf == St.PAUSED) = false := by rw [hw]; decide
-    have hstep : dispatchOneX sp true w c = dispatchPlain w c := by
-      simp only [dispatchOneX, h1, h2, hc, Bool.false_eq_true, if_false, if_true]
-    simp only [List.foldl_cons, hstep]
-    obtain ⟨i1, i2, i3, i4, i5⟩ := ih (dispatchPlain w c) hw hb (fun c' hc' => hbl' c' (List.mem_cons_of_mem _ hc'))
-    refine ⟨i1, i2, ?_, ?_, ?_⟩
-    · rw [i3]; simp [dispatchPlain, newRow]
-    · rw [i4]; simp [dispatchPlain]; omega
-    · rw [i5]; simp [dispatchPlain]; omega
+theorem backlog_untouched_while_paused (sp : Spec) (w : World) (ev : Event) (hw : w.wf = .PAUSED)
+    (hev : ∀ x, ev = x → x ≠ .resume) : (stepX sp w ev).backlog = w.backlog :=
+  backlog_untouched_while_paused_g pySorter sp w ev hw hev
 
-/-- FINDING (known, `join-created-idle`): a RunTask command restored from the backlog has lost its `wait`
-    flag and its unique key (commands.restore_command_from_dict): for a JOIN target too it creates an
-    ordinary IDLE execution without unique key - which `start_task` runs at once, without the join condition
-    being checked - instead of deferring to the join's WAITING execution.  Real engine = model after every
-    event: corpus/core/restored_join.json. -/
-theorem restored_join_is_plain (sp : Spec) (w : World) (c : Cmd) (k : JoinKind) (hw : w.wf = .RUNNING)
-    (_hj : isJoin sp c.target = some k) (hc : cmdKind c.target = .task) :
-    dispatchOneX sp true w c = dispatchPlain w c ∧
-    (dispatchPlain w c).tasks = w.tasks ++ [{ newRow w c .IDLE with keyed := false }] := by
+/-- one RunTask command in a RUNNING workflow, restored from the backlog or freshly calculated: `dispatchTask`
+    (joins: deferred through the unique key).  REGRESSION of the finding `join-created-idle`: before
+    repo_patches/32 a restored join command had lost `wait` / `unique_key` and created a plain IDLE execution
+    that started at once (corpus/core/restored_join.json). -/
+theorem restored_command_dispatched_like_fresh (sp : Spec) (restored : Bool) (w : World) (c : Cmd) (hw : w.wf = .RUNNING)
+    (hc : cmdKind c.target = .task) (he : c.existing = none) :
+    dispatchOneX sp restored w c = dispatchTask sp w c := by
   have h1 : isCompleted w.wf = false := by rw [hw]; decide
   have h2 : (w.wf == St.PAUSED) = false := by rw [hw]; decide
-  exact ⟨by simp only [dispatchOneX, h1, h2, hc, Bool.false_eq_true, if_false, if_true], rfl⟩
+  simp only [dispatchOneX, h1, h2, hc, he, Bool.false_eq_true, if_false]
+
+/-- … in particular a restored JOIN command defers: the join's execution is WAITING (new, or the existing
+    one found by its unique key), never a second / IDLE one -/
+theorem restored_join_defers (sp : Spec) (w : World) (c : Cmd) (k : JoinKind) (hw : w.wf = .RUNNING)
+    (hj : isJoin sp c.target = some k) (hc : cmdKind c.target = .task) (he : c.existing = none) :
+    dispatchOneX sp true w c = dispatchOneX sp false w c ∧
+    (findKeyed w c.target = none → (dispatchOneX sp true w c).tasks = w.tasks ++ [newRow w c .WAITING]) ∧
+    (∀ r, findKeyed w c.target = some r → (dispatchOneX sp true w c).tasks.length = w.tasks.length) := by
+  rw [restored_command_dispatched_like_fresh sp true w c hw hc he,
+      restored_command_dispatched_like_fresh sp false w c hw hc he]
+  refine ⟨rfl, ?_, ?_⟩
+  · intro hf
+    simp [dispatchTask, hj, hf]
+  · intro r hf
+    simp only [dispatchTask, hj, hf]
+    split <;> simp [setTask_length]
+
+theorem foldl_restored_tasks (sp : Spec) (cs : List Cmd) :
+    ∀ (w : World), w.wf = .RUNNING → (∀ c ∈ cs, cmdKind c.target = .task ∧ c.existing = none) →
+      cs.foldl (dispatchOneX sp true) w = cs.foldl (dispatchTask sp) w ∧
+      (cs.foldl (dispatchTask sp) w).wf = .RUNNING ∧ (cs.foldl (dispatchTask sp) w).backlog = w.backlog := by
+  induction cs with
+  | nil => intro w h _; exact ⟨rfl, h, rfl⟩
+  | cons c cs ih =>
+    intro w h hc
+    obtain ⟨hk, he⟩ := hc c List.mem_cons_self
+    have h1 := restored_command_dispatched_like_fresh sp true w c h hk he
+    have hf := dispatchTask_frame sp w c
+    obtain ⟨i1, i2, i3⟩ := ih (dispatchTask sp w c) (by rw [hf.1]; exact h)
+      (fun c' hc' => hc c' (List.mem_cons_of_mem _ hc'))
+    simp only [List.foldl_cons, h1]
+    exact ⟨i1, i2, i3.trans hf.2⟩
+
+/-- `backlog_restored_once`: when the backlog is polled in a RUNNING workflow (after `resume`, or at the
+    next dispatch) every saved RunTask command - joins included - is handed to the dispatcher EXACTLY ONCE,
+    exactly like a freshly calculated command (`dispatchTask`: a plain task gets one new execution, a join is
+    deferred), in the order `_rearrange_commands` gives them (`pySort`, a rearrangement of the saved list:
+    same length, same elements), and the backlog is empty afterwards: nothing is lost, nothing can be
+    dispatched a second time.  (In a completed workflow the polled backlog is dropped: `dispatchX_completed` /
+    `no_dispatch_into_completed`.) -/
+theorem backlog_restored_once (sp : Spec) (bl : List Cmd) (w : World) (hw : w.wf = .RUNNING) (hb : w.backlog = [])
+    (hbl : ∀ c ∈ bl, cmdKind c.target = .task ∧ c.existing = none) :
+    processX pySorter sp true w bl = (pySort (cmdLT fun c => c.existing.isNone && (isJoin sp c.target).isSome) bl).foldl (dispatchTask sp) w ∧
+    (processX pySorter sp true w bl).backlog = [] ∧ (processX pySorter sp true w bl).wf = .RUNNING ∧
+    (pySort (cmdLT fun c => c.existing.isNone && (isJoin sp c.target).isSome) bl).length = bl.length ∧ (∀ c, c ∈ pySort (cmdLT fun c => c.existing.isNone && (isJoin sp c.target).isSome) bl ↔ c ∈ bl) := by
+  obtain ⟨hlen, hmem⟩ := pySort_perm (cmdLT fun c => c.existing.isNone && (isJoin sp c.target).isSome) bl
+  have hbl' : ∀ c ∈ pySort (cmdLT fun c => c.existing.isNone && (isJoin sp c.target).isSome) bl, cmdKind c.target = .task ∧ c.existing = none :=
+    fun c hc => hbl c ((hmem c).mp hc)
+  obtain ⟨h1, h2, h3⟩ := foldl_restored_tasks sp _ w hw hbl'
+  have he : processX pySorter sp true w bl = (pySort (cmdLT fun c => c.existing.isNone && (isJoin sp c.target).isSome) bl).foldl (dispatchTask sp) w := by
+    unfold processX
+    rw [rearrange_tasks _ bl (fun c hc => (hbl c hc).1)]
+    simp only [pySorter_apply]
+    exact h1
+  refine ⟨he, ?_, ?_, hlen, hmem⟩
+  · rw [he, h3]; exact hb
+  · rw [he]; exact h2
+
+/-- … and when none of the saved commands is for a join: one new execution and one start request each -/
+theorem backlog_restored_once_plain (sp : Spec) (cs : List Cmd) :
+    ∀ (w : World), (∀ c ∈ cs, isJoin sp c.target = none) →
+      (cs.foldl (dispatchTask sp) w).tasks.map (·.name) = w.tasks.map (·.name) ++ cs.map (·.target) ∧
+      (cs.foldl (dispatchTask sp) w).pending.length = w.pending.length + cs.length := by
+  induction cs with
+  | nil => intro w _; simp
+  | cons c cs ih =>
+    intro w hc
+    have hj := hc c List.mem_cons_self
+    obtain ⟨i1, i2⟩ := ih (dispatchTask sp w c) (fun c' hc' => hc c' (List.mem_cons_of_mem _ hc'))
+    simp only [List.foldl_cons]
+    constructor
+    · rw [i1]; simp [dispatchTask, hj, newRow]
+    · rw [i2]; simp [dispatchTask, hj]; omega
 
 /-! ### C10: no creation while PAUSED, engine commands included -/
 
 /-- `Task.complete` while the workflow is PAUSED: recorded, nothing dispatched, no execution created -/
-theorem completeTaskX_paused (sp : Spec) (w : World) (r : TaskRow) (s : St) (hw : w.wf = .PAUSED) :
-    ids (completeTaskX sp w r s) = ids w ∧ (completeTaskX sp w r s).wf = .PAUSED := by
+theorem completeTaskX_paused (srt : Sorter) (sp : Spec) (w : World) (r : TaskRow) (s : St) (hw : w.wf = .PAUSED) :
+    ids (completeTaskX srt sp w r s) = ids w ∧ (completeTaskX srt sp w r s).wf = .PAUSED := by
   have hp : isPaused w.wf = true := by rw [hw]; decide
   unfold completeTaskX
   split
@@ -295,20 +340,20 @@ theorem completeTaskX_paused (sp : Spec) (w : World) (r : TaskRow) (s : St) (hw 
 
 /-- C10 "pause creates no new tasks", engine commands included: while the workflow is PAUSED no event but
     `resume` creates a task execution - results are recorded, commands go to the backlog. -/
-theorem no_creation_while_pausedX (sp : Spec) (w : World) (ev : Event) (hw : w.wf = .PAUSED)
-    (hev : ∀ x, ev = x → x ≠ .resume) : ids (stepX sp w ev) = ids w := by
+theorem no_creation_while_pausedX_g (srt : Sorter) (sp : Spec) (w : World) (ev : Event) (hw : w.wf = .PAUSED)
+    (hev : ∀ x, ev = x → x ≠ .resume) : ids (stepXg srt sp w ev) = ids w := by
   have hp : isPaused w.wf = true := by rw [hw]; decide
   have key : ∀ (ts : List TaskRow) (p : List Item) (r : TaskRow) (s : St),
-      ids (completeTaskX sp { w with tasks := ts, pending := p } r s) = ids { w with tasks := ts, pending := p } :=
-    fun ts p r s => (completeTaskX_paused sp { w with tasks := ts, pending := p } r s hw).1
+      ids (completeTaskX srt sp { w with tasks := ts, pending := p } r s) = ids { w with tasks := ts, pending := p } :=
+    fun ts p r s => (completeTaskX_paused srt sp { w with tasks := ts, pending := p } r s hw).1
   cases ev with
   | resume => exact absurd rfl (hev _ rfl)
-  | start => simp only [stepX]; split <;> first | rfl | (rename_i h; rw [hw] at h; exact absurd h (by decide))
+  | start => simp only [stepXg]; split <;> first | rfl | (rename_i h; rw [hw] at h; exact absurd h (by decide))
   | pause => rfl
   | stop t => rfl
-  | execute t ok => simp only [stepX]; split <;> rfl
+  | execute t ok => simp only [stepXg]; split <;> rfl
   | deliver it =>
-    simp only [stepX]
+    simp only [stepXg]
     split
     · rfl
     · cases it with
@@ -360,6 +405,10 @@ theorem no_creation_while_pausedX (sp : Spec) (w : World) (ev : Event) (hw : w.w
                     · rw [key]
                       simp [ids, setTask_ids]
                     · simp [ids, setTask_ids]
+
+theorem no_creation_while_pausedX (sp : Spec) (w : World) (ev : Event) (hw : w.wf = .PAUSED)
+    (hev : ∀ x, ev = x → x ≠ .resume) : ids (stepX sp w ev) = ids w :=
+  no_creation_while_pausedX_g pySorter sp w ev hw hev
 
 /-! non-vacuity: the seeded scenario (corpus/core/backlog_after_stop.json) -/
 
